@@ -151,3 +151,62 @@ Print Assumptions C04_fresh_equal.
 Print Assumptions C04_key_function.
 Print Assumptions C04_key_separates_single.
 Print Assumptions C04_fresh_equal_phase_refuted.
+
+(* ---- appended by tools/mkprops.py: Glue ---- *)
+(** Glue: the incrementally maintained bitboards ARE the bitboard view the attack and move-generator theorems are stated about (GlueView.v) *)
+From Coq Require Import NArith ZArith List Bool Permutation.
+From FG Require Import Geom Rules FenSpec BitView AttacksImpl MoveEnc MovegenImpl PosImpl PosTabs PosProofsA PosProofsB PosProofsC PosProofs GlueView.
+Import ListNotations.
+
+Theorem C04_view_core_exact :
+  forall (t : tabs) (p : ipos), Coh t p -> view_of_ipos p = set_vking (view_of_spec (abs p)) (i_ksq p).
+Proof. exact view_core_exact. Qed.
+
+Theorem C04_view_of_ipos_exact :
+  forall (t : tabs) (p : ipos),
+         Coh t p ->
+         has_king (i_board p) WHITE -> has_king (i_board p) BLACK -> view_of_ipos p = view_of_spec (abs p).
+Proof. exact view_of_ipos_exact. Qed.
+
+Theorem C04_reachable_view_legal :
+  forall (t : tabs) (p : ipos),
+         Reach t p -> legal_pos (abs p) = true -> view_of_ipos p = view_of_spec (abs p).
+Proof. exact reachable_view_legal. Qed.
+
+Theorem C04_reachable_view_core :
+  forall (t : tabs) (p : ipos), Reach t p -> view_of_ipos p = set_vking (view_of_spec (abs p)) (i_ksq p).
+Proof. exact reachable_view_core. Qed.
+
+Theorem C04_setup_view :
+  forall (t : tabs) (q : pos),
+         PosProofsI.spec_ok q ->
+         legal_pos q = true -> view_of_ipos (setup_of_spec t q) = view_of_spec (abs (setup_of_spec t q)).
+Proof. exact setup_view. Qed.
+
+Theorem C04_legal_step_view :
+  forall (t : tabs) (p : ipos) (m : mv),
+         Reach t p ->
+         legal_pos (abs p) = true ->
+         room p ->
+         In m (legal (abs p)) ->
+         exists p' : ipos,
+           do_move t p (code m) = Some p' /\
+           Reach t p' /\
+           abs p' = make (abs p) m /\
+           legal_pos (abs p') = true /\ view_of_ipos p' = view_of_spec (make (abs p) m).
+Proof. exact legal_step_view. Qed.
+
+Theorem C04_reachable_view_refuted :
+  exists p : ipos,
+           Reach real_tabs p /\
+           legal_pos rk_pos = true /\
+           vking (view_of_ipos p) = (6, 60) /\
+           vking (view_of_spec (abs p)) = (6, 64) /\
+           nth 8 (pieces (view_of_ipos p)) 0 = 0 /\
+           view_of_ipos p <> view_of_spec (abs p) /\ view_of_ipos p = set_vking (view_of_spec (abs p)) (6, 60).
+Proof. exact reachable_view_refuted. Qed.
+
+Print Assumptions C04_view_core_exact.
+Print Assumptions C04_view_of_ipos_exact.
+Print Assumptions C04_reachable_view_legal.
+Print Assumptions C04_legal_step_view.
